@@ -280,6 +280,26 @@ func strip(v ssa.Value, conv bool) ssa.Value {
 						continue
 					}
 				}
+				// a field of a local struct that is written once (locals grouped into a small struct)
+				if fa, ok := x.X.(*ssa.FieldAddr); ok {
+					if a, ok := fa.X.(*ssa.Alloc); ok {
+						if fv, ok := localFieldValue(a, fa.Field, 0); ok {
+							v = fv
+							continue
+						}
+					}
+				}
+			}
+			return v
+		case *ssa.Field:
+			// s.f of a struct value that was assembled in a local
+			if ld, ok := x.X.(*ssa.UnOp); ok && ld.Op == token.MUL {
+				if a, ok := ld.X.(*ssa.Alloc); ok {
+					if fv, ok := localFieldValue(a, x.Field, 0); ok {
+						v = fv
+						continue
+					}
+				}
 			}
 			return v
 		default:
@@ -287,6 +307,67 @@ func strip(v ssa.Value, conv bool) ssa.Value {
 		}
 	}
 	return v
+}
+
+// localFieldValue: the one value field i of the local struct variable a ever holds — a is only used
+// through field addresses, whole-value loads and at most one whole-value store (its address goes
+// nowhere), and the field is stored exactly once (or comes with the one whole-value store).
+func localFieldValue(a *ssa.Alloc, field int, depth int) (ssa.Value, bool) {
+	if depth > 4 || a.Referrers() == nil {
+		return nil, false
+	}
+	if _, ok := a.Type().Underlying().(*types.Pointer).Elem().Underlying().(*types.Struct); !ok {
+		return nil, false
+	}
+	var fieldStores []ssa.Value
+	var whole []ssa.Value
+	for _, ref := range *a.Referrers() {
+		switch x := ref.(type) {
+		case *ssa.FieldAddr:
+			for _, r2 := range *x.Referrers() {
+				switch y := r2.(type) {
+				case *ssa.Store:
+					if y.Addr != ssa.Value(x) {
+						return nil, false // the field's address is stored somewhere
+					}
+					if x.Field == field {
+						fieldStores = append(fieldStores, y.Val)
+					}
+				case *ssa.UnOp:
+					if y.Op != token.MUL {
+						return nil, false
+					}
+				case *ssa.DebugRef:
+				default:
+					return nil, false // address of a field escapes (call argument, …)
+				}
+			}
+		case *ssa.UnOp:
+			if x.Op != token.MUL {
+				return nil, false
+			}
+		case *ssa.Store:
+			if x.Addr != ssa.Value(a) {
+				return nil, false
+			}
+			whole = append(whole, x.Val)
+		case *ssa.DebugRef:
+		default:
+			return nil, false
+		}
+	}
+	if len(fieldStores) == 1 && len(whole) == 0 {
+		return fieldStores[0], true
+	}
+	if len(fieldStores) == 0 && len(whole) == 1 {
+		// the whole value was copied in: look into where it came from
+		if ld, ok := whole[0].(*ssa.UnOp); ok && ld.Op == token.MUL {
+			if src, ok := ld.X.(*ssa.Alloc); ok {
+				return localFieldValue(src, field, depth+1)
+			}
+		}
+	}
+	return nil, false
 }
 
 // fieldAddrOf: if v is FieldAddr (possibly behind ChangeType) returns the field's types.Var and base.
@@ -1042,6 +1123,25 @@ func pathOfD(v ssa.Value, d int) string {
 	}
 	if d > 12 {
 		return "…"
+	}
+	// a field of a local struct that groups a few values reads as the value it was given
+	switch x := v.(type) {
+	case *ssa.Field:
+		if ld, ok := x.X.(*ssa.UnOp); ok && ld.Op == token.MUL {
+			if a, ok := ld.X.(*ssa.Alloc); ok {
+				if fv, ok := localFieldValue(a, x.Field, 0); ok {
+					return pathOfD(fv, d+1)
+				}
+			}
+		}
+	case *ssa.UnOp:
+		if fa, ok := x.X.(*ssa.FieldAddr); ok && x.Op == token.MUL {
+			if a, ok := fa.X.(*ssa.Alloc); ok {
+				if fv, ok := localFieldValue(a, fa.Field, 0); ok {
+					return pathOfD(fv, d+1)
+				}
+			}
+		}
 	}
 	switch x := v.(type) {
 	case *ssa.Parameter:
